@@ -14,6 +14,7 @@ import datetime
 import glob
 import json
 import os
+import zoneinfo
 
 import numpy as np
 import pandas as pd
@@ -25,13 +26,19 @@ RULE = ("date indices generated as (proleptic ordinal, ns-of-day) lists in 13 fa
         "53-week years, first/last week of one year, leap-day windows incl. century years, edges of pandas' range, 1-3 date "
         "indices) x 3 timestamp units x 5 schedulers x 8 flag combinations, every row + pre-start row + foreign dates + "
         "None/0; counting schedulers with one call per date, repeated calls per date and out-of-order calls, whole "
-        "bt.Backtest runs with a recorder.  distinct = (family, scheduler, flags/parameter class, size bucket, "
-        "boundary-pattern bucket, mode)")
+        "bt.Backtest runs with a recorder; the same index families read as LOCAL wall-clock times of a time zone (east of, "
+        "west of and at UTC, DST zones, half-hour and pre-standard-time offsets) and localized to a tz-aware index, direct and "
+        "inside Backtest.run, judged on the local calendar fields.  distinct = (family, scheduler, flags/parameter class, "
+        "size bucket, boundary-pattern bucket, mode incl. side of UTC and whether a local date differs from the UTC date)")
 ASSUMPTIONS = [
     "pandas' calendar (Timestamp.year/month/day/quarter/week/isocalendar/weekday/value) is external: every generated "
     "timestamp (and, in the thorough tier, every day pandas' ns range can represent) is compared with the Lean calendar",
     "monitor's period identifiers come from datetime.date (ordinal, isocalendar) of the Python standard library",
-    "tz-aware indices and non-datetime indices are not generated",
+    "tz-aware indices: the day/week/month/quarter/year of a tz-aware date is the one of its local wall-clock time (the fields "
+    "the user supplied before tz_localize); the zone database is external - an index is only used when the instants pandas "
+    "computes equal the ones the standard library zoneinfo computes and no local time is ambiguous or nonexistent; the model "
+    "receives the local civil dates",
+    "non-datetime indices are not generated",
 ]
 
 HERE = os.path.dirname(os.path.dirname(os.path.dirname(os.path.abspath(__file__))))
@@ -189,12 +196,53 @@ FAMILIES = ["daily", "bdays", "weekly", "fourweekly", "same-dom", "k-monthly", "
             "year-span", "leapday", "range-edge", "tiny"]
 
 
-def make_pd_index(rows, unit):
+def make_pd_index(rows, unit, tz=None):
+    """tz given: the rows are local wall-clock times of that zone (what a user has before `tz_localize`)"""
     arr = np.array([ns_of(r) for r in rows], dtype="int64").view("datetime64[ns]")
     idx = pd.DatetimeIndex(arr)
     if unit != "ns":
         idx = idx.as_unit(unit)
+    if tz:
+        idx = idx.tz_localize(tz)
     return idx
+
+
+# ------------------------------------------------------------------ tz-aware indices (local wall-clock rows)
+TZ_EAST = ["Asia/Tokyo", "Australia/Sydney", "Europe/Berlin", "Pacific/Auckland", "Asia/Kolkata", "Asia/Hong_Kong",
+           "Pacific/Kiritimati", "Europe/London"]
+TZ_WEST = ["America/New_York", "America/Chicago", "America/Los_Angeles", "America/Sao_Paulo", "Pacific/Honolulu"]
+_UTC = datetime.timezone.utc
+
+
+def _local_dt(row, tz):
+    d = datetime.date.fromordinal(row[0])
+    us = row[1] // 1000
+    return datetime.datetime(d.year, d.month, d.day, us // 3600000000, us // 60000000 % 60, us // 1000000 % 60, us % 1000000,
+                             tzinfo=zoneinfo.ZoneInfo(tz))
+
+
+def tz_instant(row, tz):
+    """UTC nanoseconds of the local wall-clock time `row` in zone `tz` by the standard library; None when that wall-clock
+    time does not exist or exists twice (DST change)"""
+    dt = _local_dt(row, tz)
+    off = dt.utcoffset()
+    if dt.replace(fold=1).utcoffset() != off:
+        return None
+    back = dt.astimezone(_UTC).astimezone(dt.tzinfo)
+    if back.replace(tzinfo=None) != dt.replace(tzinfo=None):
+        return None
+    return ns_of(row) - ((off.days * 86400 + off.seconds) * 10 ** 9 + off.microseconds * 1000)
+
+
+def tz_frows(rows, unit, tz, fidx):
+    """local (ordinal, tod) rows of the full index of a tz-aware run: row 0 is the synthetic row (its local date is never
+    read by the property text: a placeholder one day before the first date), rows 1.. are the data dates - checked to be
+    the very instants of the user's index"""
+    want = [pd.Timestamp(t).value for t in make_pd_index(rows, unit, tz)]
+    got = [pd.Timestamp(t).value for t in fidx[1:]]
+    if want != got or not pd.Timestamp(fidx[0]).value < got[0]:
+        return None
+    return [(rows[0][0] - 1, rows[0][1])] + list(rows)
 
 
 # ------------------------------------------------------------------ wire format
@@ -212,9 +260,9 @@ def exc_kind(e):
 
 
 # ------------------------------------------------------------------ executing the real code
-def full_index(bt, rows, unit):
+def full_index(bt, rows, unit, tz=None):
     """the index a Backtest feeds to the strategy: real synthetic row + data (read off a real bt.Backtest)"""
-    idx = make_pd_index(rows, unit)
+    idx = make_pd_index(rows, unit, tz)
     data = pd.DataFrame(100.0, index=idx, columns=["a"])
     t = bt.Backtest(bt.Strategy("probe", []), data, progress_bar=False)
     return data, t.data
@@ -238,7 +286,7 @@ def call(algo, s):
 def exec_period(bt, case):
     """direct mode.  returns {combo_index: {"rows":[...], "zero":r, "none":r, "outside":[...]}}, full pandas index"""
     rows = [tuple(r) for r in case["rows"]]
-    _, fdata = full_index(bt, rows, case["unit"])
+    _, fdata = full_index(bt, rows, case["unit"], case.get("tz"))
     fidx = fdata.index
     algos = [make_period_algo(bt, k, f) for k, f in case["combos"]]
     s = bt.Strategy("s", list(algos))
@@ -253,6 +301,8 @@ def exec_period(bt, case):
     outside_ts = []
     for r in case.get("outside", []):
         ts = pd.Timestamp(ns_of(tuple(r)))
+        if case.get("tz"):
+            ts = ts.tz_localize(case["tz"])
         outside_ts.append(ts)
         try:
             s.update(ts, inow=len(fidx) - 1)
@@ -278,9 +328,9 @@ def recorder_class(bt):
     return Recorder
 
 
-def exec_backtest(bt, rows, unit, algo):
+def exec_backtest(bt, rows, unit, algo, tz=None):
     """whole run: [scheduler, recorder]; returns (fired ns list, full pandas index)"""
-    idx = make_pd_index(rows, unit)
+    idx = make_pd_index(rows, unit, tz)
     data = pd.DataFrame(100.0 + np.arange(len(idx)), index=idx, columns=["a"])
     if len(idx) >= 2 and (int(pd.Timestamp(idx[0]).value // 10 ** 9) + len(idx)) % 3 == 0:
         # a universe that lists on the second date (a table built with pct_change / reindexed to start early): the first row of the
@@ -473,29 +523,44 @@ def frows_of(fidx):
 
 def run_period_case(ctx, bt, case, batch, monitor=True):
     rows = [tuple(r) for r in case["rows"]]
+    tz = case.get("tz")
     out, fidx, outside_ts = exec_period(bt, case)
-    frows = frows_of(fidx)
-    if frows[1:] != rows:
-        raise RuntimeError("harness: index round trip failed")
-    if frows[0] != (rows[0][0] - 1, rows[0][1]):
-        ctx.violation("C12/Backtest:synthetic-row-not-one-day-before-first-date", "synthetic row %s for first date %s" % (fmt_row(frows[0]), fmt_row(rows[0])), case)
+    if tz:
+        # tz-aware index: the rows are the local wall-clock times; the property text is read on them, and the model gets the
+        # local civil dates (a naive index with the same wall-clock fields)
+        frows = tz_frows(rows, case["unit"], tz, fidx)
+        if frows is None:
+            raise RuntimeError("harness: tz-aware index round trip failed")
+        widx = make_pd_index(frows, case["unit"])
+        wout = [pd.Timestamp(ns_of(tuple(r))) for r in case.get("outside", [])]
+        proto, mode, label = "sched:period[tz-aware index, local civil dates]", "direct, tz-aware index in " + tz, "direct-tz:" + tz_class(rows, tz)
+    else:
+        frows = frows_of(fidx)
+        if frows[1:] != rows:
+            raise RuntimeError("harness: index round trip failed")
+        if frows[0] != (rows[0][0] - 1, rows[0][1]):
+            ctx.violation("C12/Backtest:synthetic-row-not-one-day-before-first-date", "synthetic row %s for first date %s" % (fmt_row(frows[0]), fmt_row(rows[0])), case)
+        widx, wout = fidx, outside_ts
+        proto, mode, label = "sched:period", "direct", "direct"
     n = len(fidx)
-    queries = ["N", "N"] + ["I %d" % i for i in range(n)] + ["S " + wire(t) for t in outside_ts]
+    queries = ["N", "N"] + ["I %d" % i for i in range(n)] + ["S " + wire(t) for t in wout]
     for ci, (kind, flags) in enumerate(case["combos"]):
         o = out[ci]
         expected = [o["zero"], o["none"]] + o["rows"] + o["outside"]
         one = dict(case)
         one["combos"] = [case["combos"][ci]]
-        batch.add("sched:period", period_line(kind, flags, fidx, queries), expected, one, cal=True)
+        batch.add(proto, period_line(kind, flags, widx, queries), expected, one, cal=True)
         if monitor and case.get("wellformed", True):
-            monitor_period(ctx, case, ci, o["rows"], frows, "direct")
+            monitor_period(ctx, case, ci, o["rows"], frows, mode)
             monitor_never(ctx, case, ci, "now-is-0-before-first-update", o["zero"])
             monitor_never(ctx, case, ci, "now-is-None", o["none"])
             for r in o["outside"]:
                 monitor_never(ctx, case, ci, "outside-data", r)
         ctx.evaluations += 1
         nb = sum(1 for i in range(2, n) if pid(kind, frows[i][0]) != pid(kind, frows[i - 1][0]))
-        ctx.classes.add((case["family"], kind, tuple(flags), min(n, 12) // 3, min(nb, 3), "direct"))
+        ctx.classes.add((case["family"], kind, tuple(flags), min(n, 12) // 3, min(nb, 3), label))
+        if tz:
+            ctx.count("tz:direct:combos")
         ctx.count("period:kind:" + KINDS[kind])
         ctx.count("period:flags:%d%d%d" % tuple(flags))
         ctx.count("period:boundaries-in-index:%s" % (nb if nb < 3 else "3+"))
@@ -506,17 +571,23 @@ def run_period_backtest_case(ctx, bt, case, batch):
     rows = [tuple(r) for r in case["rows"]]
     kind, flags = case["combos"][0]
     algo = make_period_algo(bt, kind, flags)
+    tz = case.get("tz")
     try:
-        fired, fidx = exec_backtest(bt, rows, case["unit"], algo)
+        fired, fidx = exec_backtest(bt, rows, case["unit"], algo, tz)
     except Exception as e:  # noqa
-        ctx.violation("C12/%s:backtest:raised:%s" % (KINDS[kind], type(e).__name__), "Backtest over %s raised %r" % ([fmt_row(r) for r in rows], e), case)
+        ctx.violation("C12/%s:backtest:raised:%s" % (KINDS[kind], type(e).__name__), "Backtest over %s%s raised %r"
+                      % ([fmt_row(r) for r in rows], " (local times, " + tz + ")" if tz else "", e), case)
         return
-    frows = frows_of(fidx)
-    if frows[1:] != rows or frows[0] != (rows[0][0] - 1, rows[0][1]):
+    if tz:
+        frows = tz_frows(rows, case["unit"], tz, fidx) if len(fidx) == len(rows) + 1 else None
+    else:
+        frows = frows_of(fidx)
+    if frows is None or frows[1:] != rows or frows[0] != (rows[0][0] - 1, rows[0][1]):
         # the schedulers' "first date" is the first date of the DATA: the run's index is the synthetic row followed by every data date
-        ctx.violation("C12/Backtest:index-is-not-synthetic-row-plus-data-dates", "data dates %s (first row all-NaN: %s) but the run's index is %s"
-                      % ([fmt_row(r) for r in rows][:4], len(rows) >= 2 and (int(pd.Timestamp(make_pd_index(rows, case["unit"])[0]).value // 10 ** 9) + len(rows)) % 3 == 0,
-                         [fmt_row(r) for r in frows][:5]), case)
+        ctx.violation("C12/Backtest:index-is-not-synthetic-row-plus-data-dates", "data dates %s%s (first row all-NaN: %s) but the run's index is %s"
+                      % ([fmt_row(r) for r in rows][:4], " (local times, " + tz + ")" if tz else "",
+                         len(rows) >= 2 and (int(pd.Timestamp(make_pd_index(rows, case["unit"], tz)[0]).value // 10 ** 9) + len(rows)) % 3 == 0,
+                         [str(t) for t in fidx][:5] if frows is None else [fmt_row(r) for r in frows][:5]), case)
         return
     nss = [pd.Timestamp(t).value for t in fidx]
     if len(set(fired)) != len(fired) or any(f not in nss[1:] for f in fired):
@@ -525,11 +596,16 @@ def run_period_backtest_case(ctx, bt, case, batch):
     real = [False] + [v in fired for v in nss[1:]]
     if nss[0] in fired:
         real[0] = True
-    monitor_period(ctx, case, 0, real, frows, "Backtest.run")
+    monitor_period(ctx, case, 0, real, frows, "Backtest.run, tz-aware index in " + tz if tz else "Backtest.run")
     queries = ["I %d" % i for i in range(len(fidx))]
-    batch.add("sched:period[Backtest.run]", period_line(kind, flags, fidx, queries), real, case, cal=True)
+    if tz:
+        batch.add("sched:period[Backtest.run, tz-aware index, local civil dates]", period_line(kind, flags, make_pd_index(frows, case["unit"]), queries),
+                  real, case, cal=True)
+        ctx.count("tz:backtest-runs")
+    else:
+        batch.add("sched:period[Backtest.run]", period_line(kind, flags, fidx, queries), real, case, cal=True)
     ctx.evaluations += 1
-    ctx.classes.add((case["family"], kind, tuple(flags), min(len(fidx), 12) // 3, "backtest"))
+    ctx.classes.add((case["family"], kind, tuple(flags), min(len(fidx), 12) // 3, "backtest-tz:" + tz_class(rows, tz) if tz else "backtest"))
     ctx.count("period:backtest-runs")
 
 
@@ -563,6 +639,49 @@ def gen_period_case(ctx, rng, maxn, ncombos):
     ctx.count("gen:rows:%s" % (len(rows) if len(rows) < 4 else "4-9" if len(rows) < 10 else "10+"))
     return {"mode": "period", "family": family, "rows": [list(r) for r in rows], "unit": unit, "combos": combos,
             "outside": outside, "wellformed": True}
+
+
+def tz_class(rows, tz):
+    """side of UTC of the zone on this index + whether some local calendar date differs from the UTC date of its instant"""
+    offs = [ns_of(r) - tz_instant(r, tz) for r in rows]
+    side = "utc" if not any(offs) else "east" if [o for o in offs if o][0] > 0 else "west"
+    differs = any((ns_of(r) - o) // NS_DAY != ns_of(r) // NS_DAY for r, o in zip(rows, offs))
+    return side + (":local-date!=utc-date" if differs else ":same-date")
+
+
+def gen_tz_case(ctx, rng, maxn, ncombos):
+    """an index of the usual families read as local wall-clock times of a zone (daily bars stamped at local midnight, local
+    session times, ...) and localized - what a user of exchange-local data has.  None when the zone data of pandas and of the
+    standard library differ on it (not judged)"""
+    case = gen_period_case(ctx, rng, maxn, ncombos)
+    r = rng.random()
+    tz = rng.choice(TZ_EAST) if r < 0.6 else rng.choice(TZ_WEST) if r < 0.9 else "UTC"
+    rows = [tuple(x) for x in case["rows"]]
+    if rng.random() < 0.3:
+        # a session time on the other side of UTC midnight than the local one is likely: early morning / late evening
+        tod = rng.choice([0, 3600, 9 * 3600, 15 * 3600, 18 * 3600, 21 * 3600, 23 * 3600 + 1800]) * 10 ** 9
+        rows = sorted(set((o, tod) for o, _ in rows))
+    rows = [x for x in rows if tz_instant(x, tz) is not None]
+    inst = [tz_instant(x, tz) for x in rows]
+    if not rows or any(b <= a for a, b in zip(inst, inst[1:])):
+        ctx.count("tz:not-judged:no-unambiguous-increasing-local-times")
+        return None
+    try:
+        got = [pd.Timestamp(t).value for t in make_pd_index(rows, case["unit"], tz)]
+    except Exception as e:  # noqa
+        ctx.count("tz:not-judged:tz_localize-raised:" + type(e).__name__)
+        return None
+    if got != inst:
+        ctx.count("tz:not-judged:pandas-and-zoneinfo-instants-differ")
+        return None
+    case["rows"] = [list(x) for x in rows]
+    case["tz"] = tz
+    have = set(ns_of(x) for x in rows) | {ns_of((rows[0][0] - 1, rows[0][1]))}
+    case["outside"] = [x for x in case["outside"] if ns_of(tuple(x)) not in have and tz_instant(tuple(x), tz) is not None
+                       and tz_instant(tuple(x), tz) not in inst]
+    ctx.count("tz:zone:" + tz)
+    ctx.count("tz:index:" + tz_class(rows, tz))
+    return case
 
 
 def twin_case(rng, case):
@@ -1010,7 +1129,7 @@ def run_case(ctx, bt, case, batch):
 
 
 # ------------------------------------------------------------------ entry points
-def _run(ctx, bt, n_period, n_bt, n_ill, n_count, n_count_bt, calendar=True):
+def _run(ctx, bt, n_period, n_bt, n_ill, n_count, n_count_bt, calendar=True, n_tz=0):
     rng = ctx.rng
     batch = Batch(ctx)
     for case in corpus_cases():
@@ -1042,6 +1161,23 @@ def _run(ctx, bt, n_period, n_bt, n_ill, n_count, n_count_bt, calendar=True):
         run_period_backtest_case(ctx, bt, case, batch)
     for i in range(n_ill):
         run_illformed_case(ctx, bt, rng, batch)
+    # tz-aware price tables (exchange-local stamps): the periods are those of the local wall-clock dates
+    for i in range(n_tz):
+        case = gen_tz_case(ctx, rng, maxn, 5)
+        if case is None:
+            continue
+        if i % 20 == 0:
+            case["combos"] = all_combos()
+        ctx.sample({"period-tz": {"family": case["family"], "unit": case["unit"], "tz": case["tz"],
+                                  "rows": [fmt_row(tuple(r)) for r in case["rows"]][:12], "combos": case["combos"][:3]}}, cap=2)
+        run_period_case(ctx, bt, case, batch)
+    for i in range(n_tz // 3):
+        case = gen_tz_case(ctx, rng, maxn, 1)
+        if case is None:
+            continue
+        case["mode"] = "period-backtest"
+        case["outside"] = []
+        run_period_backtest_case(ctx, bt, case, batch)
     batch.flush()
     for i in range(n_count):
         case = gen_count_case(ctx, rng, maxn)
@@ -1059,7 +1195,7 @@ def _run(ctx, bt, n_period, n_bt, n_ill, n_count, n_count_bt, calendar=True):
 
 def run(ctx, bt):
     _run(ctx, bt, n_period=ctx.scale(1400, 27000), n_bt=ctx.scale(200, 4500), n_ill=ctx.scale(80, 1500),
-         n_count=ctx.scale(1000, 21000), n_count_bt=ctx.scale(160, 3600))
+         n_count=ctx.scale(1000, 21000), n_count_bt=ctx.scale(160, 3600), n_tz=ctx.scale(150, 3000))
     # the schedulers at work: complete (nested) backtests whose stacks are headed by the calendar schedulers, RunOnce,
     # RunEveryNPeriods or RunAfterDays - the model computes the gate from the index (a backtest's own tree and every shadow copy
     # are first called on the first data row; nobody's algos run on the synthetic row) and executes the whole run
@@ -1070,7 +1206,7 @@ def run(ctx, bt):
 def search(ctx, bt):
     ctx.notes.append("search: x5 budget on the same generators")
     _run(ctx, bt, n_period=ctx.scale(4500, 20000), n_bt=ctx.scale(600, 3000), n_ill=ctx.scale(100, 600),
-         n_count=ctx.scale(3500, 20000), n_count_bt=ctx.scale(500, 3000), calendar=False)
+         n_count=ctx.scale(3500, 20000), n_count_bt=ctx.scale(500, 3000), calendar=False, n_tz=ctx.scale(500, 3000))
 
 
 def replay(bt, data, ctx):
